@@ -358,7 +358,39 @@ def reach(tot, tier):
     return out
 
 
+# ---- Blake: every pair of elastic constants taken from a material that is not positive definite ---------------------------------
+NONPD = [(1.0, 0.7), (-1.0, 0.7), (1.0, -1.5), (1.0, 1.5), (-1.0, 0.25), (1.0, 0.9), (-1.0, 0.55), (1.0, -2.5)]     # (sign of G, nu)
+
+
+def gen_blake(rng, i, tier):
+    from .c15 import PAIRS
+    sg, nu = NONPD[(i // 15) % len(NONPD)]
+    return dict(pair=list(PAIRS[i % 15]), G=sg * (25e9 if i < 15 * len(NONPD) else logu(rng, 1e6, 1e12)),
+                nu=nu if i < 15 * len(NONPD) else nu * uni(rng, 0.97, 1.03))
+
+
+def run_blake(ctx, p):
+    from exactpack.solvers.blake import Blake
+    from .c15 import NAMES, material
+    m = material(p["G"], p["nu"])
+    a, b = NAMES[p["pair"][0]], NAMES[p["pair"][1]]
+    given = {a: m[a], b: m[b]}
+    br = "Blake(%s, %s) from a material that is not positive definite" % (a, b)
+    det = dict(given=given, material=m)
+    try:
+        s = ctx.make(Blake, **given)
+    except SolverRaised as e:
+        ctx.observe("restr.ctor", "Blake", isinstance(e.exc, ValueError), branch=br, detail=dict(det, raised=type(e.exc).__name__, message=str(e.exc)[:200]))
+        return
+    # accepted: legitimate only if the pair also belongs to an admissible material (E and M determine two materials)
+    six = {n: float(getattr(s, n)) for n in NAMES}
+    adm = six["shear_mod"] > 0 and six["bulk_mod"] > 0 and -1.0 < six["poisson_ratio"] < 0.5
+    rep = all(abs(six[k] - v) <= 1e-9 * max(abs(v), abs(six[k])) for k, v in given.items())
+    ctx.observe("restr.ctor", "Blake", adm and rep, branch=br, detail=dict(det, accepted_as=six, admissible=adm, reproduces_given=rep))
+
+
 UNITS = [
+    Unit("blake.nonpd", gen_blake, run_blake, quick=15 * len(NONPD), thorough=15 * len(NONPD) * 6, min_nontrivial=100),
     Unit("restriction", gen_restr, run_restr, quick=(len(FLAT) + 12) * 2, thorough=(len(FLAT) + 12) * 12, min_nontrivial=len(FLAT)),
     Unit("domain", gen_dom, run_dom, quick=40, thorough=40, min_nontrivial=30),
     Unit("finite", gen_fin, run_fin, quick=360, thorough=3600, min_nontrivial=250),
